@@ -43,6 +43,8 @@ type Op struct {
 	// how the entropy reader delivers its 32 bytes: 0 = one full read, k>0 = at most k bytes per Read,
 	// -1 = all bytes together with io.EOF
 	Chunk int `json:"chunk,omitempty"`
+	// GC: force a garbage collection (finalizers included) between Finalize and the reads
+	GC bool `json:"gc,omitempty"`
 }
 
 type Program struct {
@@ -156,6 +158,10 @@ func genProgram(rng *rand.Rand, r *mon.Run) Program {
 			}
 			op.Pre, op.Mid, op.Post = il(), il(), il()
 			op.Chunk = []int{0, 0, 1, 7, 16, 31, -1}[rng.IntN(7)]
+			op.GC = rng.IntN(12) == 0
+			if op.GC {
+				r.Hist("rng/gc-between-finalize-and-read")
+			}
 			r.Hist(fmt.Sprintf("rng/entropy-reader-chunk=%d", op.Chunk))
 			r.Hist(fmt.Sprintf("rng/origin-ops-interleaved=%v", len(op.Pre)+len(op.Mid)+len(op.Post) > 0))
 			for _, l := range [][][2][]byte{op.Pre, op.Mid, op.Post} {
@@ -249,6 +255,12 @@ func execute(r *mon.Run, c Case, p Program, compare bool) []byte {
 			}
 			mr := mb.Finalize(op.Entropy)
 			origin(op.Post)
+			if op.GC {
+				// the builder is garbage now; the RNG it produced is not: a collection (with finalizers) in between
+				// must not change a byte of what the RNG returns
+				rb = nil
+				mon.GCNow()
+			}
 			for _, sz := range op.Reads {
 				got := make([]byte, sz)
 				n, err := rr.Read(got)
